@@ -1,5 +1,5 @@
 (* C11 — hierarchy validation equals declared path semantics, in reader and writer alike.  Statements only. *)
-From Ebml Require Import Base Tools Spec Writer Reader Proofs.Tactics Proofs.SpecProofs Proofs.WriterProofs.
+From Ebml Require Import Base Tools Spec Writer Reader Pure Proofs.Tactics Proofs.SpecProofs Proofs.WriterProofs Proofs.Refine Proofs.PureProofs Proofs.ErrKinds.
 
 (* the matcher decides the declarative pattern semantics (Matches: each named parent matches exactly that master, each
    placeholder (min-max) between min and max arbitrary masters, the whole chain consumed) — for every path and chain *)
@@ -51,3 +51,12 @@ Example C11_ex :
   path_matches [PGlobal (Some 1) None] [] = false /\ path_matches [PGlobal None None] [] = true /\
   path_matches [PId 1; PGlobal None (Some 1)] [1; 2; 3] = false.
 Proof. vm_compute. repeat split; reflexivity. Qed.
+
+(* the reader's rejection: HierarchyError{found_tag_id := the id at the cursor, current_parent_id := the innermost open master},
+   reported exactly when hierarchy problems are not tolerated, the id is known and the chain that remains after the closing
+   rule does not match the declared path *)
+Theorem C11_reader_error_fields : forall c st st' id par, p_header c st = (st', Err (RHierarchy id par)) ->
+  exists idl, p_tag_id st = Ok (id, idl) /\ par = match b_stack st' with f :: _ => Some (f_id f) | [] => None end /\
+              c_allow_hier c = false /\ get_type (c_sp c) id <> None /\
+              validate_tag_path (c_sp c) id (stack_view (b_stack st')) = false.
+Proof. exact hierarchy_error_fields. Qed.
